@@ -5,6 +5,7 @@ import (
 	"path/filepath"
 
 	"github.com/pdfcpu/pdfcpu/pkg/api"
+	"github.com/pdfcpu/pdfcpu/pkg/cli"
 	"github.com/pdfcpu/pdfcpu/pkg/pdfcpu"
 	"github.com/pdfcpu/pdfcpu/pkg/pdfcpu/model"
 	"github.com/pdfcpu/pdfcpu/pkg/pdfcpu/types"
@@ -191,6 +192,29 @@ func init() {
 	o.Aux = []string{"samples/form/fill/english.json"}
 	single("form-reset", []string{"samples/form/demoSinglePage/person.pdf"}, func(e *Env) error {
 		return api.ResetFormFieldsFile(e.In[0], e.Out, nil, conf())
+	})
+
+	// ---- CLI layer with the input on stdin: the pkg/cli stream plumbing (spooled input, createStreamOutput, finalizer)
+	stdin := func(name string, inputs []string, run func(e *Env) error) {
+		o := &Op{Name: name, Family: "single", Inputs: inputs, Rels: []string{RelNew, RelExisting, RelExisting0}}
+		o.Run = func(e *Env) error {
+			f, err := os.Open(e.In[0])
+			if err != nil {
+				return err
+			}
+			old := os.Stdin
+			os.Stdin = f
+			defer func() { os.Stdin = old; f.Close() }()
+			return run(e)
+		}
+		register(o)
+	}
+	stdin("cli-stdin-optimize", zine, func(e *Env) error { _, err := cli.Optimize(cli.OptimizeCommand("-", e.Out, conf())); return err })
+	stdin("cli-stdin-rotate", zine, func(e *Env) error { _, err := cli.Rotate(cli.RotateCommand("-", e.Out, 90, nil, conf())); return err })
+	stdin("cli-stdin-trim", zine, func(e *Env) error { _, err := cli.Trim(cli.TrimCommand("-", e.Out, []string{"1-2"}, conf())); return err })
+	stdin("cli-stdin-removepages", zine, func(e *Env) error {
+		_, err := cli.RemovePages(cli.RemovePagesCommand("-", e.Out, []string{"1"}, conf()))
+		return err
 	})
 
 	// ---- merge family: inputs in0..inN, destination is a separate out file
